@@ -4,6 +4,7 @@ import (
 	"fmt"
 	"math"
 	"runtime"
+	"sync"
 
 	"gopkg.in/typ.v4/slices"
 	"verifharness/internal/core"
@@ -43,6 +44,46 @@ func runC13(c *core.Ctx) {
 			}
 			if !hugeChunks(c) {
 				return
+			}
+			// several goroutines, each on a big slice of its own, inside the helpers at the same
+			// time (results of >= 32768 pieces): nothing may be shared between the calls
+			{
+				var wg sync.WaitGroup
+				bad := make([]string, 4)
+				for g := 0; g < 4; g++ {
+					wg.Add(1)
+					go func(g int) {
+						defer wg.Done()
+						m := 40000 + 1000*g
+						own := make([]int, m)
+						for i := range own {
+							own[i] = g*1000000 + i
+						}
+						for rep := 0; rep < 3 && bad[g] == ""; rep++ {
+							w := slices.Windowed(own, 2)
+							ch := slices.Chunk(own, 1)
+							pr := slices.Pairs(own)
+							if len(w) != m-1 || len(ch) != m || len(pr) != m-1 {
+								bad[g] = fmt.Sprintf("counts %d/%d/%d for %d elements", len(w), len(ch), len(pr), m)
+								break
+							}
+							for i := 0; i < m-1; i += 97 {
+								if len(w[i]) != 2 || w[i][0] != own[i] || w[i][1] != own[i+1] || len(ch[i]) != 1 || ch[i][0] != own[i] || pr[i] != [2]int{own[i], own[i+1]} {
+									bad[g] = fmt.Sprintf("piece %d is wrong", i)
+									break
+								}
+							}
+						}
+					}(g)
+				}
+				wg.Wait()
+				for g, b := range bad {
+					if b != "" {
+						c.Violate("concurrent-calls-on-separate-slices", fmt.Sprintf("goroutine %d of 4, each calling Windowed/Chunk/Pairs on a big slice of its own at the same time: %s", g, b), nil)
+						return
+					}
+				}
+				c.Count("concurrent_big_calls_on_separate_slices", 1)
 			}
 			// the same big input under other processor settings (1 < GOMAXPROCS < NumCPU
 			// included): work that is split by one number and started by another
@@ -152,6 +193,9 @@ func partCheck(c *core.Ctx, n, size int) bool {
 	// len(slice), never from cap(slice)
 	spare := (n + size%4) % 4
 	in := make([]int, n, n+spare)
+	if n == 0 && size%2 == 0 {
+		in, spare = nil, 0 // the nil slice is an empty input too
+	}
 	for i := range in {
 		in[i] = i + 1
 	}
@@ -431,6 +475,31 @@ func hugeChunks(c *core.Ctx) bool {
 func pairsCheck(c *core.Ctx, n int) bool {
 	if n < 0 {
 		n = 0
+	}
+	if n <= 300 {
+		// zero-size elements: nothing to copy, but the number of pairs / pieces is the same
+		type z = struct{}
+		zs := make([]z, n)
+		var gp [][2]z
+		var gw, gc [][]z
+		calls := 0
+		if p, pv := core.Catch(func() {
+			gp = slices.Pairs(zs)
+			slices.PairsFunc(zs, func(a, b z) { calls++ })
+			gw = slices.Windowed(zs, 2)
+			gc = slices.Chunk(zs, 3)
+		}); p {
+			c.Violate("Pairs:zero-size-elements", fmt.Sprintf("Pairs/PairsFunc/Windowed/Chunk over %d zero-size elements panicked: %v", n, pv), nil)
+			return false
+		}
+		wantP := n - 1
+		if wantP < 0 {
+			wantP = 0
+		}
+		if len(gp) != wantP || calls != wantP || len(gw) != wantP || len(gc) != (n+2)/3 {
+			c.Violate("Pairs:zero-size-elements", fmt.Sprintf("over %d zero-size elements: Pairs %d, PairsFunc %d calls, Windowed(2) %d, Chunk(3) %d", n, len(gp), calls, len(gw), len(gc)), nil)
+			return false
+		}
 	}
 	in := make([]int, n, n+1)
 	for i := range in {
